@@ -7,3 +7,4 @@ import SplinkVerif.Model.Score
 import SplinkVerif.Model.ArithNum
 import SplinkVerif.Generated.Arith
 import SplinkVerif.Model.BlockingAnalysis
+import SplinkVerif.Model.EM
